@@ -90,6 +90,9 @@ void make_plan(const CheckDef &cd, uint64_t verif_seed, uint64_t index, Tier tie
 	Rng rng(plan.seed);
 	plan.rng = rng.next();
 	pf->gen(rng, plan, tier, index / cd.profiles.size());
+	// guard bytes behind every block in half of the runs (no draw from the plan's generator)
+	if (!plan.cfg.count("canary"))
+		plan.cfg["canary"] = Val((int64_t)(mix64(plan.seed, 0xCA9A41) % 2 == 0 ? 1 : 0));
 }
 
 uint64_t exec_plan(const Plan &plan, Ctx &ctx)
@@ -104,7 +107,19 @@ uint64_t exec_plan(const Plan &plan, Ctx &ctx)
 	ctx.property = plan.property;
 	// allocator address reuse is a per-run knob of the plan (see SimAlloc::reuse)
 	g_alloc.reuse = plan.C("reuse") != 0;
+	g_alloc.canary = plan.C("canary") != 0;
+	if (g_alloc.canary)
+		ctx.count("fault:allocator_guard_bytes_runs");
 	pf->exec(ctx);
+	g_alloc.check_live_canaries();
+	if (g_alloc.canary_hits) {
+		bool memsafe = plan.property == "C06" || plan.property == "C07" || plan.property == "C16" || plan.property == "C17" ||
+			       plan.property == "C18";
+		ctx.violation(memsafe ? plan.property : std::string("C06"), "heap-overflow-guard-bytes", plan.profile,
+			      strf("%llu block(s) handed out by the installed allocator came back with the guard bytes behind them overwritten "
+				   "(first: block of %zu bytes, byte %zu past its end)",
+				   (unsigned long long)g_alloc.canary_hits, g_alloc.canary_block, g_alloc.canary_off));
+	}
 	if (g_alloc.foreign_frees) {
 		// memory that did not come from the allocator installed with jwt_set_alloc() was handed to its free
 		// function (with a pool or arena allocator that is memory corruption; with malloc underneath it is silent)
@@ -400,7 +415,10 @@ static bool parse_violation(const std::string &line, Violation &v)
 	return true;
 }
 
-static ChildResult run_in_child(const Plan &plan, double timeout_s = 120)
+// `prefix`: plans executed first in the same child process (their results are discarded). A run is meant
+// to be a function of its plan alone; when a violation shows only after earlier runs in the same process,
+// the library keeps state across objects, and the earlier plans become part of the replay file.
+static ChildResult run_in_child(const Plan &plan, double timeout_s = 120, const std::vector<Plan> *prefix = nullptr)
 {
 	ChildResult cr;
 	int pfd[2];
@@ -419,6 +437,13 @@ static ChildResult run_in_child(const Plan &plan, double timeout_s = 120)
 		}
 		alarm((unsigned)timeout_s);
 		FILE *out = fdopen(pfd[1], "w");
+		if (prefix)
+			for (auto &pp : *prefix) {
+				Ctx pc;
+				Stats ps;
+				pc.stats = &ps;
+				exec_plan(pp, pc);
+			}
 		Ctx ctx;
 		Stats st;
 		ctx.stats = &st;
@@ -486,13 +511,51 @@ struct Shrinker {
 	int budget = 500;
 	double deadline = 0;
 	int tries = 0;
+	std::vector<Plan> prefix;                       // earlier runs of the same process (usually none)
+	std::function<bool(const Plan &)> tester;       // set while a plan of the prefix is being shrunk
+	double child_timeout() const { return 60 + 2.0 * (double)prefix.size(); }
 	bool test(const Plan &p)
 	{
 		if (tries >= budget || wall_now() > deadline)
 			return false;
 		tries++;
-		ChildResult cr = run_in_child(p, 60);
+		if (tester)
+			return tester(p);
+		ChildResult cr = run_in_child(p, child_timeout(), prefix.empty() ? nullptr : &prefix);
 		return has_key(cr, key);
+	}
+	// ddmin over the list of earlier plans, the failing plan stays last
+	void shrink_prefix(const Plan &last)
+	{
+		size_t n = 2;
+		while (!prefix.empty()) {
+			size_t len = prefix.size();
+			if (n > len)
+				n = len;
+			size_t chunk = (len + n - 1) / n;
+			bool removed = false;
+			for (size_t start = 0; start < len; start += chunk) {
+				if (tries >= budget || wall_now() > deadline)
+					return;
+				std::vector<Plan> cand = prefix;
+				size_t end = std::min(len, start + chunk);
+				cand.erase(cand.begin() + (long)start, cand.begin() + (long)end);
+				tries++;
+				ChildResult cr = run_in_child(last, child_timeout(), &cand);
+				if (has_key(cr, key)) {
+					prefix = cand;
+					removed = true;
+					break;
+				}
+			}
+			if (removed) {
+				n = n > 2 ? n - 1 : 2;
+				continue;
+			}
+			if (chunk == 1)
+				break;
+			n = std::min(len, n * 2);
+		}
 	}
 	// ddmin over a vector of steps reachable through `get`
 	bool ddmin(Plan &plan, const std::function<std::vector<Step> &(Plan &)> &get)
@@ -556,12 +619,24 @@ struct Shrinker {
 		}
 		// one more pass over steps: simplifications may have made steps redundant
 		ddmin(plan, [](Plan &p) -> std::vector<Step> & { return p.steps; });
+		// the steps of the earlier plans
+		for (size_t j = 0; j < prefix.size(); j++) {
+			tester = [this, j, &plan](const Plan &c) {
+				std::vector<Plan> pf = prefix;
+				pf[j] = c;
+				return has_key(run_in_child(plan, child_timeout(), &pf), key);
+			};
+			Plan pj = prefix[j];
+			ddmin(pj, [](Plan &p) -> std::vector<Step> & { return p.steps; });
+			prefix[j] = pj;
+			tester = nullptr;
+		}
 	}
 };
 
 // ---------------------------------------------------------------- replay files
 static std::string write_replay(const Plan &plan, const Violation &v, uint64_t verif_seed, uint64_t index,
-				size_t orig_steps, int shrink_tries)
+				size_t orig_steps, int shrink_tries, const std::vector<Plan> *prefix = nullptr, size_t orig_prefix = 0)
 {
 	mkdir("/verif/replays", 0755);
 	std::string path =
@@ -569,6 +644,14 @@ static std::string write_replay(const Plan &plan, const Violation &v, uint64_t v
 		     (unsigned long long)index);
 	json_t *o = json_object();
 	json_object_set_new(o, "plan", plan_to_json(plan));
+	if (prefix && !prefix->empty()) {
+		// runs executed earlier in the same process, in order; the violation needs them
+		json_t *h = json_array();
+		for (auto &pp : *prefix)
+			json_array_append_new(h, plan_to_json(pp));
+		json_object_set_new(o, "history", h);
+		json_object_set_new(o, "history_runs_before_shrinking", json_integer((json_int_t)orig_prefix));
+	}
 	json_t *e = json_object();
 	json_object_set_new(e, "property", json_string(v.property.c_str()));
 	json_object_set_new(e, "monitor", json_string(v.monitor.c_str()));
@@ -592,7 +675,7 @@ static std::string write_replay(const Plan &plan, const Violation &v, uint64_t v
 	return path;
 }
 
-static bool load_replay(const std::string &path, Plan &plan, Violation &expect)
+static bool load_replay(const std::string &path, Plan &plan, Violation &expect, std::vector<Plan> *prefix = nullptr)
 {
 	json_error_t err;
 	json_t *o = json_load_file(path.c_str(), 0, &err);
@@ -601,6 +684,18 @@ static bool load_replay(const std::string &path, Plan &plan, Violation &expect)
 		return false;
 	}
 	bool ok = plan_from_json(json_object_get(o, "plan"), plan);
+	json_t *hist = json_object_get(o, "history");
+	if (prefix && hist && json_is_array(hist)) {
+		size_t hi;
+		json_t *hv;
+		json_array_foreach(hist, hi, hv)
+		{
+			Plan pp;
+			if (!plan_from_json(hv, pp))
+				ok = false;
+			prefix->push_back(pp);
+		}
+	}
 	json_t *e = json_object_get(o, "expect");
 	json_t *v;
 	if (e) {
@@ -619,12 +714,22 @@ static int cmd_replay(const std::string &path, bool verbose)
 {
 	Plan plan;
 	Violation expect;
-	if (!load_replay(path, plan, expect))
+	std::vector<Plan> prefix;
+	if (!load_replay(path, plan, expect, &prefix))
 		return 2;
-	printf("REPLAY %s profile=%s property=%s steps=%zu\n", path.c_str(), plan.profile.c_str(),
-	       plan.property.c_str(), plan.total_steps());
+	printf("REPLAY %s profile=%s property=%s steps=%zu earlier_runs_in_same_process=%zu\n", path.c_str(), plan.profile.c_str(),
+	       plan.property.c_str(), plan.total_steps(), prefix.size());
 	fflush(stdout);
 	if (verbose) {
+		for (size_t j = 0; j < prefix.size(); j++) {
+			printf("  earlier run %zu (%s):\n", j, prefix[j].profile.c_str());
+			for (size_t i = 0; i < prefix[j].steps.size(); i++)
+				printf("    step %zu: %s\n", i, step_brief(prefix[j].steps[i]).c_str());
+			Ctx pc;
+			Stats ps;
+			pc.stats = &ps;
+			exec_plan(prefix[j], pc);
+		}
 		// in-process, so that the event log can be printed; a crash shows the sanitizer report
 		Ctx ctx;
 		Stats st;
@@ -650,7 +755,7 @@ static int cmd_replay(const std::string &path, bool verbose)
 		sim_scratch_cleanup();
 		return hit ? 1 : 0;
 	}
-	ChildResult cr = run_in_child(plan);
+	ChildResult cr = run_in_child(plan, 120 + 2.0 * (double)prefix.size(), prefix.empty() ? nullptr : &prefix);
 	for (auto &v : cr.viol)
 		printf("VIOLATION-DETAIL property=%s monitor=%s cause=%s\n  %s\n", v.property.c_str(), v.monitor.c_str(),
 		       v.cause.c_str(), show(v.detail, 1200).c_str());
@@ -752,6 +857,7 @@ struct WorkerSlot {
 	std::string buf;
 	uint64_t cur = UINT64_MAX; // run in progress (after B, before E)
 	uint64_t next_first = 0;
+	uint64_t inc_first = 0; // first run of this incarnation of the worker process
 	bool finished = false;
 	bool leak_exit = false;
 	std::string errpath;
@@ -760,6 +866,7 @@ struct WorkerSlot {
 struct Found {
 	uint64_t index;
 	Violation v;
+	uint64_t hist_first; // first run executed by the worker process that reported it
 };
 
 static int cmd_check(const std::string &property, Tier tier, uint64_t verif_seed, int nworkers, uint64_t runs_override,
@@ -816,6 +923,7 @@ static int cmd_check(const std::string &property, Tier tier, uint64_t verif_seed
 		close(pfd[1]);
 		s.pid = pid;
 		s.fd = pfd[0];
+		s.inc_first = first;
 		s.buf.clear();
 		s.cur = UINT64_MAX;
 		s.finished = false;
@@ -861,7 +969,7 @@ static int cmd_check(const std::string &property, Tier tier, uint64_t verif_seed
 					known_what[k->cause] = k->what;
 				} else if (!found_keys.count(v.key()) && found.size() < 6) {
 					found_keys.insert(v.key());
-					found.push_back(Found{idx, v});
+					found.push_back(Found{idx, v, s.inc_first});
 				}
 			}
 			break;
@@ -968,7 +1076,7 @@ static int cmd_check(const std::string &property, Tier tier, uint64_t verif_seed
 				known_what[kn->cause] = kn->what;
 			} else if (!found_keys.count(v.key()) && found.size() < 6) {
 				found_keys.insert(v.key());
-				found.push_back(Found{dead_run, v});
+				found.push_back(Found{dead_run, v, s.inc_first});
 			}
 			total.inc("worker_restarts");
 			completed++;
@@ -997,7 +1105,7 @@ static int cmd_check(const std::string &property, Tier tier, uint64_t verif_seed
 				known_what[k->cause] = k->what;
 			} else if (!found_keys.count(v.key()) && found.size() < 6) {
 				found_keys.insert(v.key());
-				found.push_back(Found{i, v});
+				found.push_back(Found{i, v, i});
 			}
 		}
 	}
@@ -1047,6 +1155,41 @@ static int cmd_check(const std::string &property, Tier tier, uint64_t verif_seed
 		// 1. same plan in a fresh child: violation and event-log hash must match
 		ChildResult a = run_in_child(plan);
 		ChildResult b = run_in_child(plan);
+		Shrinker sh;
+		size_t orig_prefix = 0;
+		if (!has_key(a, key) && !has_key(b, key) && a.ran && b.ran && a.hash == b.hash && f.hist_first < f.index) {
+			// Alone the plan is violation-free, deterministically. The worker had executed other runs before it in
+			// the same process: re-execute growing suffixes of that history in front of the plan.
+			std::vector<Plan> hist;
+			for (uint64_t i = f.hist_first; i < f.index; i += (uint64_t)nworkers) {
+				if (f.index - i > (uint64_t)nworkers * 4000)
+					continue;
+				Plan hp;
+				make_plan(*cd, verif_seed, i, tier, hp);
+				hist.push_back(hp);
+				if (mix64(i, 77) % 40 == 0)
+					hist.push_back(hp); // the worker's in-process determinism sample ran it twice
+			}
+			double hdeadline = wall_now() + (tier == QUICK ? 420 : 1200);
+			for (size_t k = 1; !hist.empty() && wall_now() < hdeadline; k = std::min(hist.size(), k * 4)) {
+				std::vector<Plan> suffix(hist.end() - (long)k, hist.end());
+				ChildResult h1 = run_in_child(plan, 120 + 2.0 * (double)k, &suffix);
+				if (has_key(h1, key)) {
+					ChildResult h2 = run_in_child(plan, 120 + 2.0 * (double)k, &suffix);
+					if (has_key(h2, key) && h1.hash == h2.hash) {
+						sh.prefix = suffix;
+						orig_prefix = hist.size();
+						a = h1;
+						b = h2;
+						fprintf(stderr, "jwtsim: violation %s of run %llu needs earlier runs in the same process (reproduced with the last %zu of %zu)\n",
+							key.c_str(), (unsigned long long)f.index, k, hist.size());
+					}
+					break;
+				}
+				if (k == hist.size())
+					break;
+			}
+		}
 		if (!has_key(a, key) || !has_key(b, key) || (a.ran && b.ran && a.hash != b.hash)) {
 			fprintf(stderr,
 				"jwtsim: HARNESS-ERROR violation %s of run %llu did not reproduce deterministically "
@@ -1057,17 +1200,21 @@ static int cmd_check(const std::string &property, Tier tier, uint64_t verif_seed
 			continue;
 		}
 		// 2. shrink
-		Shrinker sh;
 		sh.key = key;
-		sh.deadline = wall_now() + (tier == QUICK ? 60 : 180);
+		sh.deadline = wall_now() + (tier == QUICK ? 60 : 180) + (sh.prefix.empty() ? 0 : 240);
+		if (!sh.prefix.empty())
+			sh.shrink_prefix(plan);
 		sh.shrink(plan);
 		// 3. write, replay in a fresh process
 		Violation fv = f.v;
-		ChildResult fin = run_in_child(plan);
+		ChildResult fin = run_in_child(plan, sh.child_timeout(), sh.prefix.empty() ? nullptr : &sh.prefix);
 		for (auto &v : fin.viol)
 			if (v.key() == key)
 				fv = v;
-		std::string path = write_replay(plan, fv, verif_seed, f.index, orig_steps, sh.tries);
+		if (!sh.prefix.empty())
+			fv.detail += strf(" [only after %zu earlier run(s) in the same process (see \"history\" in the replay file): state kept by the library outside the objects of a run]",
+					  sh.prefix.size());
+		std::string path = write_replay(plan, fv, verif_seed, f.index, orig_steps, sh.tries, &sh.prefix, orig_prefix);
 		std::string cmd = strf("/proc/%d/exe replay %s >/dev/null 2>&1", (int)getpid(), path.c_str());
 		int rc = system(cmd.c_str());
 		if (!(WIFEXITED(rc) && WEXITSTATUS(rc) == 1)) {
@@ -1100,6 +1247,14 @@ static int cmd_check(const std::string &property, Tier tier, uint64_t verif_seed
 	}
 	if (nondeterminism)
 		exit_code = 2;
+	// A violation that passed the gate (same plan twice in fresh processes with identical event logs, shrunk, replay file
+	// reproduced in yet another process) stands whatever else went wrong: a library that keeps state across the objects
+	// of different runs makes other runs depend on their worker's history, which the determinism samples then report.
+	if (!violation_lines.empty()) {
+		if (exit_code == 2)
+			fprintf(stderr, "jwtsim: harness-level anomalies above were reported next to %zu confirmed violation(s); exit status 1\n", violation_lines.size());
+		exit_code = 1;
+	}
 
 	for (auto &kh : known_hits)
 		printf("KNOWN-FINDING: property=%s %s [%s; hit %llu times]\n", cd->property, known_what[kh.first].c_str(),
@@ -1112,7 +1267,7 @@ static int cmd_check(const std::string &property, Tier tier, uint64_t verif_seed
 			printf("HASH %llu %016llx\n", (unsigned long long)kv.first, (unsigned long long)kv.second);
 
 	// ------------------------------------------------------------ evidence
-	if (!evidence_path.empty() && exit_code != 2) {
+	if (!evidence_path.empty() && exit_code != 2) { // (never reached with exit 2: no evidence from a run whose harness misbehaved)
 		json_t *ev = json_object();
 		json_object_set_new(ev, "property_id", json_string(cd->property));
 		json_object_set_new(ev, "tier", json_string(tier == QUICK ? "quick" : "thorough"));
